@@ -82,11 +82,11 @@ where
             self.data.push(None);
         }
 
-        // Actually write the data into the vector.
-        self.data[index] = Some(value);
-
-        // Increment the size so it stays accurate
-        self.size += 1;
+        // Actually write the data into the vector, incrementing the size so it stays accurate.
+        // Overwriting an existing entry does not change the number of entries.
+        if self.data[index].replace(value).is_none() {
+            self.size += 1;
+        }
     }
 
     /// Gets the value in the map for the provided `key` or [`None`] if there is
@@ -132,7 +132,11 @@ where
 
         if index < self.data.len() {
             let value = self.data[index].take();
-            self.size -= 1;
+
+            // Only an entry that was actually present reduces the number of entries.
+            if value.is_some() {
+                self.size -= 1;
+            }
 
             value
         } else {
